@@ -53,7 +53,9 @@ def budget(tier):
 
 def scratch_dir():
     root = os.environ.get("VERIF_SCRATCH") or ("/dev/shm" if os.path.isdir("/dev/shm") else None)
-    return tempfile.mkdtemp(prefix="c12-", dir=root)
+    from hv.core import case_dir
+
+    return case_dir("c12", root)
 
 
 # ------------------------------------------------------------------------------------------- bases (cached bytes)
